@@ -77,6 +77,15 @@ def applyOp (ext : Ext) (n : Node) : Sexp → Node × String
     | some ds => (match removeDefaults ext n ds with
                   | .ok n' => (n', "ok") | .error e => (n, "err " ++ showErr e))
     | none => (n, "bad-arg")
+  | .list [.atom "remove_defaults_cls", .list sig, user] =>
+    let sig' := sig.mapM (fun e => match e with
+      | .list [k, .atom "~"] => do pure ((← k.str?), (none : Option PyDefault))
+      | .list [k, d] => do pure ((← k.str?), some (← toDefault d))
+      | _ => none)
+    match sig', toDefaults user with
+    | some sg, some us => (match removeDefaults ext n (defaultedAttributes sg us) with
+                  | .ok n' => (n', "ok") | .error e => (n, "err " ++ showErr e))
+    | _, _ => (n, "bad-arg")
   | .list [.atom "seq_to_map", a, k, v, s] =>
     match a.str?, k.str?, optStr v, s.bool? with
     | some a, some k, some v, some s =>
